@@ -132,7 +132,7 @@ impl Container for StaticContainer {
         ))
     }
 
-    async fn read(&self, key: &[u8; 16], _offset: u64, _len: u32, buf: &mut [u8]) -> Result<usize> {
+    async fn read(&self, key: &[u8; 16], offset: u64, len: u32, buf: &mut [u8]) -> Result<usize> {
         if !self.initialized {
             return Err(StorageError::Config(
                 "static container not initialized".to_string(),
@@ -152,6 +152,7 @@ impl Container for StaticContainer {
             archive.read_content(entry.archive_id(), entry.archive_offset(), entry.size)?
         };
 
+        let data = crate::container::byte_range(&data, offset, len);
         let copy_len = data.len().min(buf.len());
         buf[..copy_len].copy_from_slice(&data[..copy_len]);
         Ok(copy_len)
